@@ -336,3 +336,28 @@ Proof.
   - intros [p [q X]]. destruct p; discriminate.
   - cbn [app]. now apply clean10_find.
 Qed.
+
+(* a natural sufficient condition for [clean10]: the message does not contain "]]>" at all (true
+   of every well-formed XML document without CDATA sections / comments ending in it) *)
+Definition t3 : bytes := [93; 93; 62].
+Lemma clean10_sufficient : forall m : bytes, ~ occurs t3 m -> clean10 m.
+Proof.
+  intros m. unfold clean10. change (removelast delim10) with [93; 93; 62; 93; 93].
+  induction m as [|a m IH]; intros Hn O; apply contains_occurs in O.
+  - vm_compute in O. discriminate.
+  - change ((a :: m) ++ [93; 93; 62; 93; 93]) with (a :: m ++ [93; 93; 62; 93; 93]) in O.
+    cbn [contains] in O. apply orb_true_iff in O as [O|O].
+    + destruct m as [|b [|c m']].
+      * unfold delim10 in O. cbn [app prefixb] in O. change (62 =? 93) with false in O.
+        rewrite !andb_false_r in O. discriminate.
+      * unfold delim10 in O. cbn [app prefixb] in O. change (62 =? 93) with false in O.
+        rewrite !andb_false_r in O. discriminate.
+      * unfold delim10 in O. cbn [app prefixb] in O.
+        destruct (N.eqb_spec 93 a) as [<-|]; [|discriminate].
+        destruct (N.eqb_spec 93 b) as [<-|]; [|discriminate].
+        destruct (N.eqb_spec 62 c) as [<-|]; [|discriminate].
+        apply Hn. exists [], m'. reflexivity.
+    + apply IH.
+      * intros O'. apply Hn. apply (occurs_app_r _ _ [a]) in O'. exact O'.
+      * apply contains_occurs. exact O.
+Qed.
